@@ -790,6 +790,35 @@ func init() {
 				}
 			}
 		}
+		// very long headers: a JPEG whose first frame header comes after 9 MiB of well-formed comment segments,
+		// and a PNG with 9 MiB of text chunks before IDAT - whatever a loader buffers, nothing is lost
+		{
+			small := buildJPEG(rng, jpegOpt{w: 33, h: 21, precision: 8, ncomp: 3, nBefore: 1, body: 3000})
+			long := append([]byte{}, small.Data[:2]...)
+			for k := 0; k < 145; k++ {
+				long = append(long, jpegSeg(0xfe, randBytes(rng, 65533))...)
+			}
+			long = append(long, small.Data[2:]...)
+			pl := buildPNG(rng, pngOpt{w: 12, h: 9, depth: 8, ctype: 2, body: 2000})
+			longP := append([]byte{}, pl.Data[:33]...)
+			for k := 0; k < 9; k++ {
+				longP = append(longP, pngChunk("tEXt", randBytes(rng, 1<<20))...)
+			}
+			longP = append(longP, pl.Data[33:]...)
+			for name, data := range map[string][]byte{"jpeg-9MiB-of-comments-before-sof": long, "png-9MiB-of-text-before-idat": longP} {
+				for _, which := range []string{name[:strings.Index(name, "-")], "auto"} {
+					for _, sc := range []sched{allAtOnce, fixedSched(len(data), 61440, false, "61440")} {
+						o := observeLoad(which, data, sc)
+						c.res.count("long-headers", name+which+sc.Name, true)
+						if o.NilStream || !bytes.Equal(o.Replay, data) || o.End != "eof" {
+							c.res.fail(Failure{Class: "C07:replay:" + which, Desc: fmt.Sprintf("returned stream does not replay the input (%s, %d bytes, schedule %s)", name, len(data), sc.Name),
+								Input: map[string]interface{}{"input": name, "loader": which, "bytes": len(data), "sched": sc.Name, "construction": "SOI + 145 COM segments of 65533 random bytes + a small JPEG / signature+IHDR + 9 tEXt chunks of 1 MiB + a small PNG"},
+								Got: fmt.Sprintf("%d bytes, first difference at %d, end=%s", len(o.Replay), firstDiff(o.Replay, data), o.End), Want: fmt.Sprintf("%d bytes", len(data))})
+						}
+					}
+				}
+			}
+		}
 		// chains: the stream one loader returned is an io.Reader like any other - read some of it, hand the rest
 		// to another loader (format sniffing in layers does this): that loader's stream replays what was left
 		for round := 0; round < c.n(300, 3000); round++ {
